@@ -63,17 +63,17 @@ theorem C11_get_uids_out_of_storage (v : Variant) (au : List Nat) (a : Arr) (us 
     getItem v au a (.uids us) = .error .index := by
   cases v <;> simp [getItem, convertKey, h]
 
-/-- **set by uids**: after `arr[uids] = rhs` every identifier not named keeps its value, every named one holds the
-    value assigned to it (the last one, if it is named twice); the bookkeeping is untouched. -/
-theorem C11_set_uids (v : Variant) (au : List Nat) (a : Arr) (us : List Nat) (rhs : Rhs)
-    (hr : inRange a us = true) (hok : rhsOk us rhs = true) :
-    ∃ a', setItem v au a (.uids us) rhs = .ok a' ∧ a'.lenUsed = a.lenUsed ∧ a'.lenTot = a.lenTot ∧
-      a'.raw.length = a.raw.length ∧
+/-- **set by uids**: after `arr[uids] = value` every identifier not named keeps its value, every named one holds the
+    value assigned to it *cast to the array's dtype* (the last one, if it is named twice); the bookkeeping is untouched. -/
+theorem C11_set_uids (v : Variant) (au : List Nat) (a : Arr) (us : List Nat) (rhs0 rhs : Rhs)
+    (hc : castRhs a.kind rhs0 = some rhs) (hr : inRange a us = true) (hok : rhsOk us rhs = true) :
+    ∃ a', setItem v au a (.uids us) rhs0 = .ok a' ∧ a'.lenUsed = a.lenUsed ∧ a'.lenTot = a.lenTot ∧
+      a'.raw.length = a.raw.length ∧ a'.nan = a.nan ∧ a'.default = a.default ∧ a'.kind = a.kind ∧
       (∀ x, a'.cell x = updMany a.cell us (rhsVals us.length rhs) x) ∧
       (∀ x, x ∉ us → abs au a' x = abs au a x) := by
   have hin : ∀ u ∈ us, u < a.raw.length := by simpa [inRange] using hr
-  refine ⟨{ a with raw := assignRaw a.raw us rhs }, ?_, rfl, rfl, by simp, ?_, ?_⟩
-  · cases v <;> simp [setItem, convertKey, hr, hok]
+  refine ⟨{ a with raw := assignRaw a.raw us rhs }, ?_, rfl, rfl, by simp, rfl, rfl, rfl, ?_, ?_⟩
+  · cases v <;> simp [setItem, convertKey, hc, hr, hok]
   · intro x; simp only [Arr.cell]; exact assignRaw_eq_updMany a.raw us rhs hok hin x
   · intro x hx
     simp only [abs, Arr.cell]
@@ -87,11 +87,19 @@ theorem C11_set_uids_list (a : Arr) (us : List Nat) (vs : List Val) (hnd : us.No
   simp only [assignRaw, hl, beq_self_eq_true, ↓reduceIte]
   exact scatter_getD_nodup us vs a.raw hnd hl.symm i hi (by omega) (hin _ (List.getElem_mem hi))
 
-/-- a value list of the wrong length is refused -/
+/-- a value list of the wrong length is refused, and so is a value the dtype cannot hold (NaN into an integer array) -/
 theorem C11_set_wrong_length (v : Variant) (au : List Nat) (a : Arr) (us : List Nat) (vs : List Val)
     (h1 : vs.length ≠ us.length) (h2 : vs.length ≠ 1) :
     setItem v au a (.uids us) (.list vs) = .error .value := by
-  cases v <;> simp [setItem, convertKey, rhsOk, h1, h2]
+  have key : ∀ rhs, castRhs a.kind (.list vs) = some rhs → rhsOk us rhs = false := by
+    intro rhs hc
+    simp only [castRhs, Option.map_eq_some_iff] at hc
+    obtain ⟨vs', hm, rfl⟩ := hc
+    have hl : vs'.length = vs.length := castList_length a.kind vs vs' hm
+    simp [rhsOk, hl, h1, h2]
+  cases hc : castRhs a.kind (.list vs) with
+  | none => cases v <;> simp [setItem, convertKey, hc]
+  | some rhs => cases v <;> simp [setItem, convertKey, hc, key rhs hc]
 
 /-! ### Slices and Boolean keys see only active agents -/
 
@@ -120,13 +128,13 @@ theorem C11_slice_active (v : Variant) (au : List Nat) (a : Arr) (s e st : Optio
   · cases v <;> simp [getItem, convertKey, sliceUids_full, hin, values]
 
 /-- **Boolean key**: `arr[boolarr]` reads exactly the active identifiers whose flag is truthy, in active order. -/
-theorem C11_bool_key (v : Variant) (au : List Nat) (a k : Arr) (hin : inRange a au = true) :
+theorem C11_bool_key (v : Variant) (au : List Nat) (a k : Arr) (hin : inRange a au = true) (hk : isBoolKind k = true) :
     getItem v au a (.boolArr k) = .ok (.vals ((trueUids au k).map a.cell)) ∧ (trueUids au k).Sublist au := by
   have hall : ∀ u ∈ au, u < a.raw.length := by simpa [inRange] using hin
   have hr : inRange a (trueUids au k) = true := by
     simp only [inRange, List.all_eq_true, decide_eq_true_eq]
     intro u hu; exact hall u (List.mem_filter.mp hu).1
-  exact ⟨by cases v <;> simp [getItem, convertKey, hr, gather], List.filter_sublist⟩
+  exact ⟨by cases v <;> simp [getItem, convertKey, hk, hr, gather], List.filter_sublist⟩
 
 /-- **ambiguous keys** (non-empty lists / plain integer arrays / floats / strings) are rejected for reading and writing,
     while an empty key selects nobody. -/
@@ -318,40 +326,19 @@ theorem C11_grow_bad_default (a : Arr) (us : List Nat) (vs : List Val) (f : Nat 
 
 /-! ### Refinement for every history of grow / remove / assign -/
 
-/-- the simulation relation between the storage machine and the reference map -/
-structure Sim (dflt : List Nat → List Val) (h : Hist) (r : RefMap) : Prop where
-  au : h.au = r.active
-  n : h.n = r.n
-  wf : WF h.n h.arr
-  cells : ∀ u, u < h.n → h.arr.cell u = r.m u
-  dflt : ∀ us, defaultVals h.arr us = dflt us
-  active : ∀ u ∈ h.au, u < h.n
-  nodup : h.au.Nodup
-
-/-- an operation the code accepts, phrased on the reference only: the default yields one value per new agent;
-    assignments name created identifiers and have a broadcastable right-hand side -/
-def HOp.valid (dflt : List Nat → List Val) (r : RefMap) : HOp → Prop
-  | .grow k => (dflt (newIds r.n k)).length = k
-  | .remove _ => True
-  | .assign us rhs => rhsOk us rhs = true ∧ ∀ u ∈ us, u < r.n
-
-def validRun (dflt : List Nat → List Val) : RefMap → List HOp → Prop
-  | _, [] => True
-  | r, op :: ops => HOp.valid dflt r op ∧ validRun dflt (r.step dflt op) ops
-
 theorem defaultVals_congr (a b : Arr) (h1 : b.nan = a.nan) (h2 : b.default = a.default) (us : List Nat) :
     defaultVals b us = defaultVals a us := by
   simp [defaultVals, defaultRhs, h1, h2]
 
-theorem Sim.step {dflt : List Nat → List Val} {h : Hist} {r : RefMap} (s : Sim dflt h r) (op : HOp) (hv : HOp.valid dflt r op) :
-    Sim dflt (h.step op) (r.step dflt op) := by
+theorem sim_step {kind : Kind} {dflt : List Nat → List Val} {h : Hist} {r : RefMap} (s : Sim kind dflt h r) (op : HOp)
+    (hv : HOp.valid kind dflt r op) : Sim kind dflt (h.step op) (r.step kind dflt op) := by
   cases op with
   | grow k =>
       have hd : (defaultVals h.arr (newIds h.n k)).length = k := by
         rw [s.dflt, s.n]; exact hv
-      obtain ⟨a', hg, hwf, hnan, hdef, _, hc⟩ := grow_spec h.arr h.n k s.wf hd
+      obtain ⟨a', hg, hwf, hnan, hdef, hkind, hc⟩ := grow_spec h.arr h.n k s.wf hd
       simp only [Hist.step, hg, RefMap.step]
-      refine ⟨by simp [s.au, s.n], by simp [s.n], hwf, ?_, ?_, ?_, ?_⟩
+      refine ⟨by rw [hkind]; exact s.kind, by simp [s.au, s.n], by simp [s.n], hwf, ?_, ?_, ?_, ?_⟩
       · intro u hu
         rw [hc u hu, ← s.n, ← s.dflt]
         apply updMany_congr
@@ -374,51 +361,49 @@ theorem Sim.step {dflt : List Nat → List Val} {h : Hist} {r : RefMap} (s : Sim
         omega
   | remove dead =>
       simp only [Hist.step, RefMap.step, removeActive]
-      refine ⟨by simp [s.au], s.n, s.wf, s.cells, s.dflt, ?_, s.nodup.filter _⟩
+      refine ⟨s.kind, by simp [s.au], s.n, s.wf, s.cells, s.dflt, ?_, s.nodup.filter _⟩
       intro u hu; exact s.active u (List.mem_filter.mp hu).1
-  | assign us rhs =>
-      obtain ⟨hok, hlt⟩ := hv
+  | assign us rhs0 =>
+      obtain ⟨⟨rhs, hcast, hok⟩, hlt⟩ := hv
       have hr : inRange h.arr us = true := by
         simp only [inRange, List.all_eq_true, decide_eq_true_eq]
         intro u hu; have := hlt u hu; have := s.wf.le; have := s.n; omega
-      obtain ⟨a', hset, hlu, hlt', hlen, hcell, _⟩ := C11_set_uids codeVariant h.au h.arr us rhs hr hok
-      have hnan : a'.nan = h.arr.nan ∧ a'.default = h.arr.default := by
-        have : setItem codeVariant h.au h.arr (.uids us) rhs = .ok { h.arr with raw := assignRaw h.arr.raw us rhs } := by
-          cases codeVariant <;> simp [setItem, convertKey, hr, hok]
-        rw [this] at hset
-        cases hset; exact ⟨rfl, rfl⟩
-      simp only [Hist.step, hset, RefMap.step]
-      refine ⟨s.au, s.n, ⟨by rw [hlu]; exact s.wf.used, by rw [hlt', hlen]; exact s.wf.tot, by rw [hlen]; exact s.wf.le⟩, ?_, ?_, s.active, s.nodup⟩
+      obtain ⟨a', hset, hlu, hlt', hlen, hnan, hdef, hkind, hcell, _⟩ :=
+        C11_set_uids codeVariant h.au h.arr us rhs0 rhs (by rw [s.kind]; exact hcast) hr hok
+      simp only [Hist.step, hset, RefMap.step, hcast]
+      refine ⟨by rw [hkind]; exact s.kind, s.au, s.n,
+        ⟨by rw [hlu]; exact s.wf.used, by rw [hlt', hlen]; exact s.wf.tot, by rw [hlen]; exact s.wf.le⟩, ?_, ?_, s.active, s.nodup⟩
       · intro u hu
         rw [hcell u]
         apply updMany_congr
         left; exact s.cells u hu
-      · intro us'; rw [defaultVals_congr h.arr a' hnan.1 hnan.2]; exact s.dflt us'
+      · intro us'; rw [defaultVals_congr h.arr a' hnan hdef]; exact s.dflt us'
 
-theorem Sim.run {dflt : List Nat → List Val} : ∀ (ops : List HOp) {h : Hist} {r : RefMap}, Sim dflt h r → validRun dflt r ops →
-    Sim dflt (h.run ops) (r.run dflt ops)
+theorem sim_run {kind : Kind} {dflt : List Nat → List Val} : ∀ (ops : List HOp) {h : Hist} {r : RefMap}, Sim kind dflt h r →
+    validRun kind dflt r ops → Sim kind dflt (h.run ops) (r.run kind dflt ops)
   | [], _, _, s, _ => s
   | op :: ops, h, r, s, hv => by
       simp only [Hist.run, RefMap.run, List.foldl_cons]
-      exact Sim.run ops (s.step op hv.1) hv.2
+      exact sim_run ops (sim_step s op hv.1) hv.2
 
 /-- **Refinement.** Start from an empty, freshly constructed array of any kind / nan / default.  After *every* sequence
-    of `People.grow`, removals and identifier assignments the code accepts, looking an identifier up through the array
-    (`abs`: the stored cell if the identifier is active, nothing otherwise) gives exactly what the reference map gives;
-    in particular `values` is the reference map listed over the active identifiers, in the reference's order. -/
+    of `People.grow`, removals and identifier assignments the code accepts (values are stored cast to the dtype), looking
+    an identifier up through the array (`abs`: the stored cell if the identifier is active, nothing otherwise) gives
+    exactly what the reference map gives; in particular `values` is the reference map listed over the active
+    identifiers, in the reference's order. -/
 theorem C11_refinement (kind : Kind) (nanV : Val) (d : Default) (ops : List HOp)
-    (hv : validRun (defaultVals (fresh kind nanV d)) ⟨[], 0, fun _ => .undef⟩ ops) :
+    (hv : validRun kind (defaultVals (fresh kind nanV d)) ⟨[], 0, fun _ => .undef⟩ ops) :
     let h := (Hist.mk [] 0 (fresh kind nanV d)).run ops
-    let r := (RefMap.mk [] 0 (fun _ => .undef)).run (defaultVals (fresh kind nanV d)) ops
+    let r := (RefMap.mk [] 0 (fun _ => .undef)).run kind (defaultVals (fresh kind nanV d)) ops
     (∀ u, abs h.au h.arr u = r.lookup u) ∧ values h.au h.arr = r.active.map r.m ∧ h.au = r.active ∧
     WF r.n h.arr ∧ r.active.Nodup ∧ ∀ u ∈ r.active, u < r.n := by
-  have s0 : Sim (defaultVals (fresh kind nanV d)) (Hist.mk [] 0 (fresh kind nanV d)) ⟨[], 0, fun _ => .undef⟩ :=
-    ⟨rfl, rfl, ⟨rfl, rfl, by simp [fresh]⟩, by intro u hu; exact absurd hu (Nat.not_lt_zero u), fun _ => rfl, by simp, by simp⟩
-  have s := Sim.run ops s0 hv
+  have s0 : Sim kind (defaultVals (fresh kind nanV d)) (Hist.mk [] 0 (fresh kind nanV d)) ⟨[], 0, fun _ => .undef⟩ :=
+    ⟨rfl, rfl, rfl, ⟨rfl, rfl, by simp [fresh]⟩, by intro u hu; exact absurd hu (Nat.not_lt_zero u), fun _ => rfl, by simp, by simp⟩
+  have s := sim_run ops s0 hv
   refine ⟨?_, ?_, s.au, by rw [← s.n]; exact s.wf, by rw [← s.au]; exact s.nodup, by rw [← s.au, ← s.n]; exact s.active⟩
   · intro u
     simp only [abs, RefMap.lookup, s.au]
-    by_cases hu : u ∈ (RefMap.run (defaultVals (fresh kind nanV d)) ⟨[], 0, fun _ => .undef⟩ ops).active
+    by_cases hu : u ∈ (RefMap.run kind (defaultVals (fresh kind nanV d)) ⟨[], 0, fun _ => .undef⟩ ops).active
     · simp only [hu, ↓reduceIte, Option.some.injEq]
       exact s.cells u (s.active u (by rw [s.au]; exact hu))
     · simp [hu]
@@ -428,16 +413,17 @@ theorem C11_refinement (kind : Kind) (nanV : Val) (d : Default) (ops : List HOp)
     exact s.cells u (s.active u (by rw [s.au]; exact hu))
 
 /-- Non-vacuity: a concrete history (create 3, assign, remove the first, grow across a reallocation, assign by list)
-    is accepted, and the model computes the expected active view. -/
+    is accepted, and the model computes the expected active view (the NaN assigned into the Boolean array is stored as `True`,
+    as NumPy's cast does). -/
 example :
     let ops := [HOp.grow 3, .assign [0, 2] (.scalar (.bool true)), .remove [0], .grow 2, .assign [4, 1] (.list [.nan, .bool true])]
     let h := (Hist.mk [] 0 (fresh .bool (.bool false) (.const (.bool false)))).run ops
-    h.au = [1, 2, 3, 4] ∧ values h.au h.arr = [.bool true, .bool true, .bool false, .nan] ∧ h.arr.lenTot = 5 ∧ h.arr.lenUsed = 5 := by
+    h.au = [1, 2, 3, 4] ∧ values h.au h.arr = [.bool true, .bool true, .bool false, .bool true] ∧ h.arr.lenTot = 5 ∧ h.arr.lenUsed = 5 := by
   decide
 
-example : validRun (defaultVals (fresh .bool (.bool false) (.const (.bool false)))) ⟨[], 0, fun _ => .undef⟩
+example : validRun .bool (defaultVals (fresh .bool (.bool false) (.const (.bool false)))) ⟨[], 0, fun _ => .undef⟩
     [HOp.grow 3, .assign [0, 2] (.scalar (.bool true)), .remove [0], .grow 2] := by
-  simp [validRun, HOp.valid, RefMap.step, defaultVals, defaultRhs, fresh, rhsVals, rhsOk, newIds]
+  simp [validRun, HOp.valid, RefMap.step, defaultVals, defaultRhs, fresh, rhsVals, rhsOk, newIds, castRhs, castVal, Val.truthy]
 
 
 /-! ### Integer keys -/
@@ -511,6 +497,222 @@ example : Uids.xor [3, 1, 1, 5] [5, 9] = [1, 3, 9] ∧ Uids.remove [4, 2, 2, 7] 
 
 example : sliceUids [1, 2, 4, 5, 6] (some 1) none (some 2) = some [2, 5] ∧ sliceUids [1, 2, 4, 5, 6] none none (some (-2)) = some [6, 4, 1] ∧
     sliceUids [1, 2, 4] (some (-2)) (some 10) none = some [2, 4] := by decide
+
+
+/-! ### Casting on assignment -/
+
+/-- **Cast.** `arr[uids] = value` stores the value *cast to the array's dtype* — truthiness for Boolean arrays, `True → 1.0`
+    for float arrays, truncation toward zero for integer arrays — and refuses what the dtype cannot hold (NaN into an
+    integer array).  Consequently every cell keeps the array's dtype after any accepted assignment. -/
+theorem C11_set_cast (v : Variant) (au : List Nat) (a : Arr) (us : List Nat) (rhs0 : Rhs) :
+    (castRhs a.kind rhs0 = none → setItem v au a (.uids us) rhs0 = .error .value) ∧
+    (∀ a', setItem v au a (.uids us) rhs0 = .ok a' → (∀ x, conforms a.kind (a.cell x) = true) → ∀ x, conforms a'.kind (a'.cell x) = true) := by
+  constructor
+  · intro hc; cases v <;> simp [setItem, convertKey, hc]
+  · intro a' hset hconf x
+    cases hc : castRhs a.kind rhs0 with
+    | none => cases v <;> simp [setItem, convertKey, hc] at hset
+    | some rhs =>
+        by_cases hok : rhsOk us rhs = true
+        · by_cases hr : inRange a us = true
+          · obtain ⟨a'', hset', _, _, _, _, _, hk, hcell, _⟩ := C11_set_uids v au a us rhs0 rhs hc hr hok
+            rw [hset'] at hset; cases hset
+            rw [hk, hcell x]
+            rcases updMany_mem a.cell us (rhsVals us.length rhs) x with h | h
+            · rw [h]; exact hconf x
+            · -- the written value is one of the cast values
+              have hall : ∀ w ∈ rhsVals us.length rhs, conforms a.kind w = true := by
+                cases rhs0 with
+                | scalar s =>
+                    simp only [castRhs, Option.map_eq_some_iff] at hc
+                    obtain ⟨c, hcv, rfl⟩ := hc
+                    intro w hw
+                    simp only [rhsVals, List.mem_replicate] at hw
+                    rw [hw.2]; exact castVal_conforms _ _ _ hcv
+                | list l =>
+                    simp only [castRhs, Option.map_eq_some_iff] at hc
+                    obtain ⟨cs, hm, rfl⟩ := hc
+                    have hcs := castList_conforms a.kind l cs hm
+                    intro w hw
+                    simp only [rhsVals] at hw
+                    split at hw
+                    · exact hcs w hw
+                    · split at hw
+                      · rename_i c _
+                        simp only [List.mem_replicate] at hw
+                        rw [hw.2]; exact hcs c (by simp)
+                      · exact hcs w hw
+              exact hall _ h
+          · cases v <;> simp [setItem, convertKey, hc, hok, hr] at hset
+        · cases v <;> simp [setItem, convertKey, hc, hok] at hset
+
+/-- the casts on concrete values (kernel-checked; fractional values are exercised by the correspondence) -/
+example : castVal .bool .nan = some (.bool true) ∧ castVal .bool (.bool false) = some (.bool false) ∧
+    castVal .float (.bool true) = some (.num 1) ∧ castVal .float .nan = some .nan ∧
+    castVal .generic .nan = none ∧ castVal .index .nan = none ∧ castVal .float .undef = some .undef := by
+  decide
+
+/-! ### Identifier arrays with negative entries -/
+
+/-- **Negative identifiers wrap.** An `ss.uids` array is a NumPy integer index: the entry `-j` (`1 ≤ j ≤ len(raw)`)
+    silently addresses storage cell `len(raw) - j` (spare capacity or another agent — e.g. `arr[people.parent]` with
+    its `-1`), anything outside `[-len(raw), len(raw))` raises `IndexError`, and a non-negative array behaves exactly
+    like the same identifiers. -/
+theorem C11_negative_uid_wraps (v : Variant) (au : List Nat) (a : Arr) :
+    (∀ j : Nat, 1 ≤ j → j ≤ a.raw.length → getItem v au a (.ruids [-(j : Int)]) = .ok (.vals [a.cell (a.raw.length - j)])) ∧
+    (∀ j : Nat, a.raw.length < j → getItem v au a (.ruids [-(j : Int)]) = .error .index) ∧
+    (∀ i : Nat, a.raw.length ≤ i → getItem v au a (.ruids [(i : Int)]) = .error .index) ∧
+    (∀ us : List Nat, inRange a us = true → getItem v au a (.ruids (us.map (fun (u : Nat) => (u : Int)))) = getItem v au a (.uids us)) := by
+  refine ⟨?_, ?_, ?_, ?_⟩
+  · intro j h1 h2
+    have e4 : a.raw.length - j < a.raw.length := by omega
+    have hw : wrapIds a.raw.length [-(j : Int)] = some [a.raw.length - j] := by
+      simp [wrapIds, wrapOne_neg _ _ h1 h2]
+    cases v <;> simp [getItem, convertKey, hw, inRange, e4, gather]
+  · intro j h
+    have hw : wrapIds a.raw.length [-(j : Int)] = none := by simp [wrapIds, wrapOne_too_neg _ _ h]
+    cases v <;> simp [getItem, convertKey, hw]
+  · intro i h
+    have hn : ¬ i < a.raw.length := by omega
+    have hw : wrapIds a.raw.length [(i : Int)] = none := by simp [wrapIds, wrapOne_nat, hn]
+    cases v <;> simp [getItem, convertKey, hw]
+  · intro us hr
+    have hall : ∀ u ∈ us, u < a.raw.length := by simpa [inRange] using hr
+    have hw := wrapIds_nat a.raw.length us hall
+    cases v <;> simp [getItem, convertKey, hw]
+
+/-! ### `grow` with arbitrary new identifiers -/
+
+/-- **Grow, general.** For *any* list of new identifiers (not only the fresh `n … n+k-1` that `People.grow` passes):
+    `grow` succeeds exactly when the values broadcast against the identifiers and every identifier lies inside the
+    (possibly reallocated) storage; then `len_used` grows by their number, every named identifier holds its value
+    (last write wins), and every other existing identifier keeps its value. -/
+theorem C11_grow_general (a : Arr) (n : Nat) (us : List Nat) (nv : Option Rhs) (h : WF n a) (rhs : Rhs)
+    (hrhs : rhs = (match nv with | some r => r | none => defaultRhs a us)) :
+    (rhsOk us rhs = false → grow a us nv = .error .value) ∧
+    (rhsOk us rhs = true → inRange (growStore a us.length) us = false → grow a us nv = .error .index) ∧
+    (rhsOk us rhs = true → inRange (growStore a us.length) us = true → ∃ a', grow a us nv = .ok a' ∧ WF (n + us.length) a' ∧
+        (∀ x, a'.cell x = updMany (growStore a us.length).cell us (rhsVals us.length rhs) x) ∧
+        (∀ x, x < n → x ∉ us → a'.cell x = a.cell x)) := by
+  obtain ⟨hwf, _, _, _, hcell⟩ := growStore_spec a n us.length h
+  have hg : grow a us nv = (if !rhsOk us rhs then .error .value else if !inRange (growStore a us.length) us then .error .index
+      else .ok { growStore a us.length with raw := assignRaw (growStore a us.length).raw us rhs }) := by
+    rw [grow_eq]; cases nv <;> (simp only at hrhs; subst hrhs; rfl)
+  refine ⟨?_, ?_, ?_⟩
+  · intro hok; rw [hg]; simp [hok]
+  · intro hok hr; rw [hg]; simp [hok, hr]
+  · intro hok hr
+    have hin : ∀ u ∈ us, u < (growStore a us.length).raw.length := by simpa [inRange] using hr
+    refine ⟨{ growStore a us.length with raw := assignRaw (growStore a us.length).raw us rhs }, ?_,
+      ⟨hwf.used, by simpa using hwf.tot, by simpa using hwf.le⟩, ?_, ?_⟩
+    · rw [hg]; simp [hok, hr]
+    · intro x; simp only [Arr.cell]; exact assignRaw_eq_updMany _ us rhs hok hin x
+    · intro x hx hnot
+      simp only [Arr.cell]
+      rw [assignRaw_getD_not_mem _ us rhs x hnot]
+      exact hcell x (by omega)
+
+/-! ### Views: `isnan`, `notnan`, `notnanvals`, `split`, arithmetic -/
+
+/-- **Every view sees only active agents.** Two arrays of the same class that agree on the active identifiers (whatever
+    removed agents and spare capacity hold — stale values, `np.empty` junk) have the same `values`, `true()`, `false()`,
+    `split()`, `notnanvals`, and their `isnan` / `notnan` / comparison / arithmetic results agree on every active agent. -/
+theorem C11_views_active (au : List Nat) (a b : Arr) (h : ∀ u ∈ au, a.cell u = b.cell u) :
+    values au a = values au b ∧ trueUids au a = trueUids au b ∧ falseUids au a = falseUids au b ∧ split au a = split au b ∧
+    notnanvals au a = notnanvals au b := by
+  have hv : values au a = values au b := by simp only [values, gather]; exact List.map_congr_left h
+  have ht : trueUids au a = trueUids au b := List.filter_congr (fun u hu => by rw [h u hu])
+  have hf : falseUids au a = falseUids au b := List.filter_congr (fun u hu => by rw [h u hu])
+  exact ⟨hv, ht, hf, by simp [split, ht, hf], by simp [notnanvals, hv]⟩
+
+/-- `notnanvals` lists, in active order, the values of exactly the active agents whose value is not NaN -/
+theorem C11_notnanvals (au : List Nat) (a : Arr) :
+    notnanvals au a = (au.filter (fun u => !(a.cell u == .nan))).map a.cell := by
+  simp only [notnanvals, values, gather, List.filter_map]
+  rfl
+
+/-- `split()` is `(true(), false())`: an ordered partition of the active identifiers -/
+theorem C11_split (au : List Nat) (a : Arr) :
+    split au a = (trueUids au a, falseUids au a) ∧ ((split au a).1 ++ (split au a).2).Perm au ∧
+    (∀ u, u ∈ (split au a).2 → u ∈ au) := by
+  refine ⟨rfl, (C11_true_false_partition au a).2.2.1, ?_⟩
+  intro u hu; exact (List.mem_filter.mp hu).1
+
+/-- **isnan / notnan.** On a float array `isnan` flags exactly the active agents holding NaN and `notnan` the others;
+    a Boolean array is never NaN; any other array compares with its own `nan` marker. -/
+theorem C11_isnan (au : List Nat) (a : Arr) (hnd : au.Nodup) (hin : inRange a au = true)
+    (hdef : ∀ u ∈ au, (a.cell u).isUndef = false) :
+    (a.kind = .float → trueUids au (isnan au a) = au.filter (fun u => a.cell u == .nan) ∧
+        trueUids au (notnan au a) = au.filter (fun u => !(a.cell u == .nan))) ∧
+    (a.kind = .bool → trueUids au (isnan au a) = [] ∧ trueUids au (notnan au a) = au) ∧
+    (a.kind = .generic ∨ a.kind = .index → isnan au a = cmpScalar au a .eq a.nan ∧ notnan au a = cmpScalar au a .ne a.nan) := by
+  refine ⟨?_, ?_, ?_⟩
+  · intro hk
+    constructor
+    · simp only [isnan, hk, trueUids]
+      apply List.filter_congr
+      intro u hu
+      obtain ⟨i, hi, rfl⟩ := List.getElem_of_mem hu
+      rw [asnew_cell au a _ _ hnd hin (by simp [values, gather]) i hi]
+      have hd := hdef _ hu
+      simp only [values, gather, List.getElem_map]
+      revert hd; cases a.cell au[i] <;> simp [isNanCell, Val.truthy, Val.isUndef]
+    · simp only [notnan, hk, trueUids]
+      apply List.filter_congr
+      intro u hu
+      obtain ⟨i, hi, rfl⟩ := List.getElem_of_mem hu
+      rw [asnew_cell au a _ _ hnd hin (by simp [values, gather]) i hi]
+      have hd := hdef _ hu
+      simp only [values, gather, List.getElem_map]
+      revert hd; cases a.cell au[i] <;> simp [isNanCell, notVal, Val.truthy, Val.isUndef]
+  · intro hk
+    constructor
+    · simp only [isnan, hk, trueUids]
+      rw [List.filter_eq_nil_iff]
+      intro u hu
+      obtain ⟨i, hi, rfl⟩ := List.getElem_of_mem hu
+      rw [asnew_cell au a _ _ hnd hin (by simp [values, gather]) i hi]
+      simp [values, gather, Val.truthy]
+    · simp only [notnan, hk, trueUids]
+      rw [List.filter_eq_self]
+      intro u hu
+      obtain ⟨i, hi, rfl⟩ := List.getElem_of_mem hu
+      rw [asnew_cell au a _ _ hnd hin (by simp [values, gather]) i hi]
+      simp [values, gather, Val.truthy]
+  · rintro (hk | hk) <;> simp [isnan, notnan, hk]
+
+/-- **Arithmetic through `__array_ufunc__`.** `arr <op> x` and `arr <op> arr2` are computed on the active view and written
+    back at the active identifiers: every active agent's cell holds `cell <op> x`. -/
+theorem C11_arith (au : List Nat) (a b : Arr) (op : Arith) (x : Val) (hnd : au.Nodup) (hin : inRange a au = true)
+    (i : Nat) (hi : i < au.length) :
+    (arithScalar au a op x).cell au[i] = arithVal op (a.cell au[i]) x ∧
+    (arithArr au a b op).cell au[i] = arithVal op (a.cell au[i]) (b.cell au[i]) ∧
+    (arithScalar au a op x).kind = a.kind := by
+  refine ⟨?_, ?_, rfl⟩
+  · rw [arithScalar, asnew_cell au a _ _ hnd hin (by simp [values, gather]) i hi]; simp [values, gather]
+  · rw [arithArr, asnew_cell au a _ _ hnd hin (by simp [values, gather]) i hi]; simp [values, gather]
+
+/-- `set_nan(uids)` writes the array's `nan` marker at exactly those identifiers -/
+theorem C11_set_nan (a : Arr) (us : List Nat) (hr : inRange a us = true) :
+    ∃ a', setNan a us = .ok a' ∧ a'.raw.length = a.raw.length ∧ ∀ x, a'.cell x = if x ∈ us then a.nan else a.cell x := by
+  have hall : ∀ u ∈ us, u < a.raw.length := by simpa [inRange] using hr
+  refine ⟨{ a with raw := scatterConst a.raw us a.nan }, by simp [setNan, hr], by simp, ?_⟩
+  intro x
+  simp only [Arr.cell]
+  rw [scatterConst_getD]
+  by_cases hx : x ∈ us
+  · have := hall x hx; simp [hx, this]
+  · simp [hx]
+
+/-- an `Arr` that is neither a `BoolArr` nor an `IndexArr` is not accepted as a key (unless nobody is active, when its
+    length is 0 and it is taken for an empty key) -/
+theorem C11_arr_key_rejected (v : Variant) (au : List Nat) (a k : Arr) (hk : isBoolKind k = false) (hne : au ≠ []) :
+    getItem v au a (.boolArr k) = .error .ambiguous := by
+  have : au.isEmpty = false := by cases au <;> simp_all
+  cases v <;> simp [getItem, convertKey, hk, this]
+
+example : notnanvals [0, 2, 3] { raw := [.num 1, .num 5, .nan, .num 2, .nan], lenUsed := 4, lenTot := 5, nan := .nan, default := .unset, kind := .float }
+    = [.num 1, .num 2] := by decide
 
 
 end StarsimModel.C11
